@@ -1406,7 +1406,7 @@ package bpmn
 // A catch event consumes an event by queueing it for its own goroutine.  Delivery must not block, whatever the node's
 // state (not yet reached, waiting, already passed).
 //@ func (*catchEvent).ConsumeEvent
-//@   prop C11
+//@   prop C11 C10
 //@   flag nonblocking
 //@   ensures [queued-once-for-the-listener] evlen == old(evlen) + 1 && isSend(ev(old(evlen))) && evch(ev(old(evlen))) == evt.mch &&
 //@             is(evval(ev(old(evlen))), processEventMessage) && evval(ev(old(evlen))).(processEventMessage).event == ev
@@ -1796,6 +1796,8 @@ package bpmn
 // registered senders are gone, and a trace sent to it after that blocks its sender for ever.
 //@ func (*subProcess).run
 //@   prop C07 C12 C10
+//@   ensures [the-inner-scope-is-cancelled-whenever-the-loop-ends-its-tracer-would-never-terminate-otherwise @C07]
+//@             count(FnCall, fncode(old(sp.cancel))) > old(count(FnCall, fncode(old(sp.cancel))))
 //@   ensures [a-loop-that-sends-traces-is-a-registered-sender-released-exactly-once-on-exit @C07] count(Call, code("tracing|ISenderHandle.Done")) == old(count(Call, code("tracing|ISenderHandle.Done"))) + 1
 //@   loop 1 for
 //@     cancels ctx
